@@ -226,6 +226,21 @@ def prop(case, ctx):
         for name, Z, shp in (("add", plib(teneva.add, Y, Y2), n), ("sub", plib(teneva.sub, Y, Y2), n), ("mul", plib(teneva.mul, Y, Y2), n),
                              ("add(number)", plib(teneva.add, Y, 0.), n), ("outer", plib(teneva.outer, Y, Y2), n + n)):
             check_tt(ctx, Z, shp, name)
+        if fl % 4 == 0:
+            # constant / zero / one-hot tensors with 2^63 and more elements (element counts that wrap a 64-bit integer): norm, sum,
+            # mean, scalar product and effective rank stay finite (the mean of a constant tensor is the constant)
+            nl = [[2] * 64, [4] * 40, [2] * 70, [100] * 10, [3] * 41][case["seed"] % 5]
+            vl = [0.0, 1.0, 2.5, -0.5][(case["seed"] // 5) % 4]
+            ctx.label("elements>=2^63")
+            for name, Z in (("const", plib(teneva.const, nl, vl)), ("delta", plib(teneva.delta, nl, [0] * len(nl), 2.0))):
+                why = oracle.wellformed(Z, nl)
+                ctx.check(why is None, f"{name} on a shape with >= 2^63 elements: {why}")
+                for fname, fn in (("norm", teneva.norm), ("sum", teneva.sum), ("mean", teneva.mean), ("erank", teneva.erank)):
+                    val = plib(fn, Z)
+                    ctx.check(np.isfinite(val), f"{fname} of a {name} tensor with >= 2^63 elements is not finite", value=float(val), shape=nl[:3] + ["..."], v=vl)
+                if name == "const":
+                    m_ = plib(teneva.mean, Z)
+                    ctx.check(abs(m_ - vl) <= 1e-12 * abs(vl), "mean of a constant tensor with >= 2^63 elements is not the constant", got=float(m_), v=vl, d=len(nl))
     elif routine == "func":
         for kind in ("cheb", "sin"):
             A = plib(teneva.func_int, Y, kind)
